@@ -251,6 +251,7 @@ fn eval_inner(target: &str, input: &str) -> Option<String> {
         }
         "default_ns" => c10_default_ns_witness(),
         "fixed_doc" => c20_fixed_doc(input),
+        "strip_scope" => c18_strip_scope(input),
         "shallow_ignore" => c13_shallow(input),
         "scope_queries" => c09_scope(input),
         "ns_layout" => bounded::ns_layout(input),
@@ -311,6 +312,19 @@ fn inputs(target: &str, large: bool) -> Vec<String> {
             let ign = ["", "x", "y", "xx", "xy", "yx", "xxy", "z", "xyz", "zz"];
             let mut v = Vec::new();
             for a in sets { for b in sets { for i in ign { v.push(format!("{}|{}|{}", a, b, i)); } } }
+            v
+        }
+        "strip_scope" => {
+            let sp = ["", " xml:space=\"preserve\"", " xml:space=\"default\""];
+            let mut v = Vec::new();
+            for a in sp { for b in sp { for c in sp {
+                let docs = [
+                    format!("<d{}><p{}>  <b{}>x</b>  </p><q>  </q></d>", a, b, c),
+                    format!("<d{}> <p{}> t <b{}> </b></p>{}</d>", a, b, c, '\u{a0}'),
+                    format!("<d{}><p{}><b{}>  </b><!--c-->  </p></d>", a, b, c),
+                ];
+                for d in docs { for start in 0..4 { v.push(format!("{}|{}", d, start)); } }
+            }}}
             v
         }
         "fixed_doc" => { let mut v = Vec::new(); for b in 0..4 { for a in 0..4 { v.push(format!("{} {}", b, a)); } } v }
@@ -806,4 +820,44 @@ fn c13_shallow(input: &str) -> Option<String> {
         Err(_) => Some(format!("shallow_equal_ignore_attributes panics for a={:?} b={:?} ignore={:?}", f[0], f[1], f[2])),
         Ok(g) => if g != want { Some(format!("a={:?} b={:?} ignore={:?}: returned {}, attribute maps minus the ignored set are {}", f[0], f[1], f[2], g, if want { "equal" } else { "different" })) } else { None },
     }
+}
+
+// (C18) remove_insignificant_whitespace called on every subtree of small documents with xml:space attributes, against
+// the property's definition evaluated independently on the tree before the call
+#[allow(dead_code)]
+fn c18_strip_scope(input: &str) -> Option<String> {
+    let f: Vec<&str> = input.split('|').collect();
+    if f.len() != 2 { return None; }
+    let doc = f[0];
+    let start: usize = f[1].parse().ok()?;
+    let mut xot = Xot::new();
+    let root = xot.parse(doc).ok()?;
+    let elements: Vec<_> = xot.descendants(root).filter(|n| xot.is_element(*n)).collect();
+    let start_node = *elements.get(start)?;
+    let space = xot.xml_space_name();
+    let is_ws = |t: &str| t.chars().all(|c| c == ' ' || c == '\t' || c == '\r' || c == '\n');
+    // expected removals among the text nodes below start_node
+    let texts: Vec<_> = xot.descendants(start_node).filter(|n| xot.is_text(*n)).collect();
+    let mut expect_removed = Vec::new();
+    for t in &texts {
+        let txt = xot.text_str(*t).unwrap();
+        let mut preserve = false;
+        for anc in xot.ancestors(*t) {
+            if xot.is_element(anc) {
+                if let Some(v) = xot.attributes(anc).get(space) { preserve = v == "preserve"; break; }
+            }
+        }
+        let parent = xot.parent(*t).unwrap();
+        let sibling_content = xot.children(parent).any(|c| c != *t && xot.text_str(c).map(|s| !is_ws(s)).unwrap_or(false));
+        expect_removed.push(is_ws(txt) && !preserve && !sibling_content);
+    }
+    let before_all: Vec<_> = xot.descendants(root).collect();
+    xot.remove_insignificant_whitespace(start_node);
+    for (t, exp) in texts.iter().zip(expect_removed.iter()) {
+        if xot.is_removed(*t) != *exp {
+            return Some(format!("{:?}, called on element #{}: a text node is {} but the definition says {}", doc, start, if xot.is_removed(*t) { "removed" } else { "kept" }, if *exp { "remove" } else { "keep" }));
+        }
+    }
+    for n in before_all { if !texts.contains(&n) && xot.is_removed(n) { return Some(format!("{:?}, called on element #{}: a node that is not a text node below the start node was removed", doc, start)); } }
+    None
 }
